@@ -116,6 +116,33 @@ def run_history(env, h, shared_buffers=False):
     return outs, state
 
 
+def kept_outputs_stable(env, h):
+    """Run the history keeping what each call stored / returned WITHOUT copying (plus a copy taken at that moment); afterwards every
+    kept array must still equal its copy: results are values, a later call must not overwrite what an earlier one handed out."""
+    obj = env.new()
+    kept = []
+    for k, op in enumerate(h):
+        try:
+            with warnings.catch_warnings():
+                warnings.simplefilter("ignore")
+                if op[0] <= 1:
+                    env.apply(obj, op)
+                    ref = obj.pseudopressure
+                elif op[0] == 2:
+                    ref = obj.recovery_factor()
+                elif op[0] == 3:
+                    ref = obj.recovery_factor(density=True)
+                else:
+                    continue
+        except Exception:  # noqa: BLE001
+            continue
+        kept.append((k, ref, np.array(ref, float)))
+    for k, ref, cp in kept:
+        if not np.array_equal(np.asarray(ref, float), cp, equal_nan=True):
+            return f"the array stored / returned by call #{k} ({h[k]}) was overwritten by a later call on the same object"
+    return None
+
+
 def same(a, b):
     if a is None or b is None:
         return a is None and b is None
@@ -209,6 +236,7 @@ def run(ctx):
             return
         nviol = 0
         nviol_b = 0
+        nviol_k = 0
         for h, sym in zip(hs, syms):
             outs, state = run_history(env, h)
             msg = compare(env, h, sym, outs, state)
@@ -227,6 +255,12 @@ def run(ctx):
                     nviol_b += 1
                     ctx.violations.append(dict(what=f"{cls.__name__} (caller refills and reuses the same time array between simulate calls): {msg_b}", key=cls.__name__ + "buf" + msg_b[:40],
                                                input=dict(cls=cls.__name__, history=h, caller_reuses_buffers=True), observed=msg_b))
+            if sum(1 for op in h if op[0] <= 1) >= 2 and nviol_k < 3:
+                msg_k = kept_outputs_stable(env, h)
+                total += 1
+                if msg_k:
+                    nviol_k += 1
+                    ctx.violations.append(dict(what=f"{cls.__name__}: {msg_k}", key=cls.__name__ + "kept", input=dict(cls=cls.__name__, history=h, outputs_kept_without_copy=True), observed=msg_k))
             # repeating the last call returns the same result
             if h[-1][0] >= 2:
                 o2, _ = run_history(env, h + [h[-1]])
